@@ -17,7 +17,7 @@ CLAIMED["C11"] = dict(
     category="proof",
     technique="contract-based deductive verification: element-wise VC over every porcelain status code and a symbolic path (string theory, z3/cvc5); abort rules as postconditions over the effect log",
     text="VCSAPI.status is proved, for every XY status code git can print and every path, to report exactly the paths that are dirty or carry a pattern, under their own name; assert_not_dirty is proved to exit 1 (before any write) iff the tree is dirty and not allowed, or a pattern file is dirty.",
-    note=TB + "A-git: porcelain v1 line format 'XY PATH' (rename/copy lines excluded); paths are edge-clean (git quotes others). set intersection is the uninterpreted A-set predicate used identically by code model and spec.",
+    note=TB + "A-git: porcelain v1 line format 'XY PATH', rename/copy lines 'XY ORIG -> PATH' (clauses of their own, with a proved lemma about the first ' -> '); names are edge-clean and printed unquoted (git quotes names with blanks; those are outside the parser). set intersection is the uninterpreted A-set predicate used identically by code model and spec. Bounded layer next to the proof: the property's state x file x allow-dirty matrix on real temporary git repositories with five config spellings of the pattern file (what git prints, what the config loader makes of a spelling).",
 )
 CLAIMED["C14"] = dict(
     category="proof",
@@ -93,8 +93,8 @@ CLAIMED["C02"] = dict(
 )
 CLAIMED["C07"] = dict(
     category="other",
-    technique="complete enumeration of the escape table through the real compilers (regex parse tree must consist of literals) + bounded end-to-end search; known findings reported by witness class",
-    text="Exhausted (X): for all 67 admissible characters embedded in text and all ordered pairs, for the v1 and the v2 compiler, the produced regex parses to exactly the literal characters; the facts that make the sequential str.replace loop a character-wise map are checked on the real table. Bounded (B): generated literals alone and wrapped around a real part find exactly the lines containing them.",
+    technique="complete enumeration of the escape table through the real compilers (regex parse tree must consist of literals; every character of re's SPECIAL_CHARS must be mapped to its escaped form) + bounded end-to-end search; known findings reported by witness class",
+    text="Exhausted (X): for all 67 admissible characters embedded in text, all ordered pairs and 29 multi-character regex constructs (quantifier braces, groups, lazy quantifiers, inline flags), for the v1 and the v2 compiler, the produced regex parses to exactly the literal characters; every character that re treats as special is compiled to its escaped form; the facts that make the sequential str.replace loop a character-wise map are checked on the real table (together: the all-lengths argument). Bounded (B): generated literals alone and wrapped around a real part find exactly the lines containing them.",
     note="No deductive obligation is claimed here: the compilers are unbounded str.replace/re.subn surgery outside the solvers' reach (DESIGN 2/C07); X is complete only for the stated alphabet and lengths. Known findings KF-C07-inner-anchor and KF-C07-backslash-v2 are reported; any failure outside these two witness classes is a violation.",
 )
 CLAIMED["C08"] = dict(
@@ -105,20 +105,20 @@ CLAIMED["C08"] = dict(
 )
 CLAIMED["C15"] = dict(
     category="other",
-    technique="exhaustive tag-table check, contract-based verification of the spelling normaliser (_parse_letter_version, all case variants, z3), bounded grammar check of the derived search pattern",
-    text="Exhausted: every tag of the regex alternatives and of the CLI has its PEP 440 short form and the vendored normaliser agrees. Proved: every spelling and letter case of a pre/post/dev marker normalises to the canonical letter and number. Bounded: for generated PEP 440-friendly patterns the text written for {pep440_version} is a PEP 440 version equal to {version}, normalised as the README states, accepted in full by the derived pattern, and equal to the PEP440 line.",
+    technique="exhaustive tag-table check, contract-based verification of the spelling normaliser (_parse_letter_version) and of the printed value (Version.__str__ against the canonical PEP 440 text, z3 with int.to.str), bounded grammar check of the derived search pattern",
+    text="Exhausted: every tag of the regex alternatives and of the CLI has its PEP 440 short form and the vendored normaliser agrees. Proved: every spelling and letter case of a pre/post/dev marker normalises to the canonical letter and number; str(Version) - the PEP440 value printed by test/show - is the canonical text with every present segment and its number (release tuples of length 1..3 quick, ..5 thorough). Bounded: for generated PEP 440-friendly patterns the text written for {pep440_version} is a PEP 440 version equal to {version}, normalised as the README states, accepted in full by the derived pattern, and equal to the PEP440 line.",
     note="_convert_to_pep440 (string surgery) is not proved. Known finding KF-C15-trailing-zero-release is reported; other disagreements are violations.",
 )
 CLAIMED["C18"] = dict(
     category="other",
-    technique="bounded differential check of the real readers (configparser / toml) on sibling projects that differ only in syntax",
-    text="Bounded (never counted as proved): seeded abstract configurations are rendered in six syntaxes (setup.cfg [bumpver]/[pycalver], pyproject.toml, bumpver.toml, .bumpver.toml, pycalver.toml) with every accepted boolean spelling, quoting style, 0..4 files x 1..3 patterns, glob entries, scopes and missing optional keys; config.init must return the same effective settings, always including the config file's own current_version line.",
-    note="No deductive obligation is claimed yet for the readers: they are thin glue over third-party parsers whose contracts would have to be assumed wholesale (DESIGN 2/C18); the check is labelled bounded.",
+    technique="contract-based verification of bumpver's own reader glue (_parse_cfg, _parse_toml, _set_raw_config_defaults: section precedence, boolean spellings, defaults; z3) over an abstract view of the library parsers, plus a bounded differential check of the real readers (configparser / toml) on sibling projects that differ only in syntax",
+    text="Proved: _parse_toml hands on the settings of [tool.bumpver], else [bumpver], else [pycalver] unchanged with commit/tag/push taken as the TOML values or the defaults False/None/None; _parse_cfg hands on the strings of [pycalver] else [bumpver] and reads commit/tag/push as true exactly for the spellings 1/yes/true/on (case-insensitive), else the same defaults; both validate and default the returned dictionary through _set_raw_config_defaults, which is proved to change nothing but a missing file_patterns entry. Bounded (never counted as proved): seeded abstract configurations are rendered in six syntaxes (setup.cfg [bumpver]/[pycalver], pyproject.toml, bumpver.toml, .bumpver.toml, pycalver.toml) with every accepted boolean spelling, quoting style, 0..4 files x 1..3 patterns, glob entries, scopes and missing optional keys; config.init must return the same effective settings, always including the config file's own current_version line.",
+    note=TB + "The library parsers (configparser, toml) are assumed to deliver sections as dictionaries (A-lib; executed for real in the bounded matrix). _parse_config, _parse_cfg_file_patterns, _parse_current_version_default_pattern and the glob expansion are not under contract: the statement as a whole is claimed only at the bounded level (category other).",
 )
 CLAIMED["C20"] = dict(
     category="other",
-    technique="complete enumeration of the legacy calendar parts over every date 2000..2099 through the real code, contract-based proof of the engine dispatch agreement (z3), bounded bump chains",
-    text="Exhausted: every listed legacy calendar part x every date 2000-01-01..2099-12-31 renders to a text that its compiled pattern matches in full and reads back to the same field; the derived {pep440_pycalver}/{pep440_version} search patterns accept the rendered PEP 440 form. Proved: incr_dispatch uses the legacy engine for every pattern with a documented legacy part and only for patterns the gate and the config loader also treat as legacy. Bounded: chains of bumps on the documented composites are accepted, re-render to themselves and strictly increase ({pycalver} also as plain strings).",
+    technique="complete enumeration of the legacy calendar parts over every date 2000..2099 through the real code, contract-based proof of the engine dispatch agreement and of the legacy bump (v1version.incr body, _ver_to_cal_info, _is_cal_gt; z3), bounded bump chains",
+    text="Exhausted: every listed legacy calendar part x every date 2000-01-01..2099-12-31 renders to a text that its compiled pattern matches in full and reads back to the same field; the derived {pep440_pycalver}/{pep440_version} search patterns accept the rendered PEP 440 form. Proved: the legacy incr keeps the calendar parts under --pin-date, takes them from the date unless the version lies in the future, strictly increases the build id, applies --major/--minor/--patch/--tag as documented and returns the rendering of that record or None; _ver_to_cal_info copies each calendar field; _is_cal_gt is the lexicographic order on common fields; incr_dispatch uses the legacy engine for every pattern with a documented legacy part and only for patterns the gate and the config loader also treat as legacy. Bounded: chains of bumps on the documented composites are accepted, re-render to themselves and strictly increase ({pycalver} also as plain strings).",
     note=TB + "{iso_week}/{us_week} are not among the parts the property lists (the legacy parser never reads them back).",
 )
 _PENDING = "check not built yet in this round (work in progress, see DESIGN.md section 2)"
